@@ -792,12 +792,21 @@ qb_ipcs_us_connect(struct qb_ipcs_service *s,
 		   struct qb_ipc_connection_response *r)
 {
 	char path[PATH_MAX];
+	char *slash;
 	int32_t fd_hdr;
 	int32_t res = 0;
 	struct ipc_us_control *ctl;
 	char *shm_ptr;
 
 	qb_util_log(LOG_DEBUG, "connecting to client (%s)", c->description);
+
+	/* Set correct ownership if qb_ipcs_connection_auth_set() has been used */
+	(void)strlcpy(path, c->description, sizeof(path));
+	slash = strrchr(path, '/');
+	if (slash) {
+		*slash = '\0';
+		(void)chown(path, c->auth.uid, c->auth.gid);
+	}
 
 	c->request.u.us.sock = c->setup.u.us.sock;
 	c->response.u.us.sock = c->setup.u.us.sock;
